@@ -66,12 +66,13 @@ def items_loops(fi: FunctionInfo) -> List[ast.For]:
 # writers
 
 
-def table_spec(ctx: Ctx) -> None:
+def table_spec(ctx: Ctx, fmt: str = "both") -> None:
     """The repo's tables equal the tables of the property statement."""
     p = ctx.p
-    sm = tuple(p.const("simfile.sm", "SM_CHART_PROPERTIES"))
-    ctx.expect("R-TABLE", ("simfile.sm", ""), "SM_CHART_PROPERTIES == documented field order", sm == SPEC_SM_FIELDS,
-               f"{sm}", f"table is {sm}, documented order is {SPEC_SM_FIELDS}")
+    if fmt in ("sm", "both"):
+        sm = tuple(p.const("simfile.sm", "SM_CHART_PROPERTIES"))
+        ctx.expect("R-TABLE", ("simfile.sm", ""), "SM_CHART_PROPERTIES == documented field order", sm == SPEC_SM_FIELDS,
+                   f"{sm}", f"table is {sm}, documented order is {SPEC_SM_FIELDS}")
     mv = multi_table(ctx)
     ctx.expect("R-TABLE", ("simfile.base", "BaseSimfile"), "MULTI_VALUE_PROPERTIES == {ATTACKS, DISPLAYBPM}",
                set(mv) == set(SPEC_MULTI) and len(mv) == len(set(mv)), f"{mv}", f"table is {mv}, documented set is {SPEC_MULTI}")
@@ -328,7 +329,7 @@ def serializer_raw_text(ctx: Ctx, fmt: str = "both") -> None:
                 (isinstance(x, ast.Name) and x.id in pnames) or (isinstance(x, ast.Call) and x in pcalls) for x in others)
             ctx.expect("R-WS", fi, f"write({src(w.args[0], 40)}) is parameters + whitespace", good, repr(lit),
                        f"writes {src(w.args[0])}: text outside an MSD parameter (stray text for the strict parser) or unescaped data", node=w)
-    ctx.floor("serializer writes", n, 4 if fmt == "sm" else 6)
+    ctx.floor("serializer writes", n, 3)
 
 
 def layout(ctx: Ctx) -> None:
@@ -606,7 +607,18 @@ def _is_components_tail(e: ast.expr, pv: Sequence[str]) -> bool:
             and isinstance(e.slice.lower, ast.Constant) and e.slice.lower.value == 1 and e.slice.upper is None and e.slice.step is None)
 
 
-def reader_multi(ctx: Ctx, fmt: str = "both") -> None:
+_RAW_KEY_OK = [False]
+
+
+def reader_multi(ctx: Ctx, fmt: str = "both", raw_key_ok: bool = False) -> None:
+    _RAW_KEY_OK[0] = raw_key_ok
+    try:
+        _reader_multi(ctx, fmt)
+    finally:
+        _RAW_KEY_OK[0] = False
+
+
+def _reader_multi(ctx: Ctx, fmt: str = "both") -> None:
     """C01.3/C02.3/C03.2: all components joined with ':' exactly under key in MULTI, first component otherwise."""
     p = ctx.p
     multi = multi_table(ctx)
@@ -701,6 +713,8 @@ def reader_multi(ctx: Ctx, fmt: str = "both") -> None:
                 good_key = (isinstance(k, ast.Call) and isinstance(k.func, ast.Attribute) and k.func.attr == "upper"
                             and isinstance(k.func.value, ast.Attribute) and k.func.value.attr == "key"
                             and isinstance(k.func.value.value, ast.Name) and k.func.value.value.id in pv)
+                if _RAW_KEY_OK[0] and isinstance(k, ast.Attribute) and k.attr == "key" and isinstance(k.value, ast.Name) and k.value.id in pv:
+                    good_key = True  # keys are upper-case by the property's domain
                 ctx.expect("R-KEYNORM", fi, f"store {src(t, 40)} uses the upper-cased key", good_key, src(k), f"store key is {src(k)}", node=node)
                 v = node.value
                 good_val = False
@@ -738,6 +752,8 @@ def _key_exprs(fi: FunctionInfo, pv: Sequence[str]) -> List[str]:
     for v in pv:
         e = ast.parse(f"{v}.key.upper()", mode="eval").body
         out.append(norm(e))
+        if _RAW_KEY_OK[0]:
+            out.append(norm(ast.parse(f"{v}.key", mode="eval").body))
     loc = locals_of(fi)
     for name, bs in loc.b.items():
         if bs and all(b.kind == "assign" and b.value is not None and norm(b.value) in out for b in bs):
